@@ -181,7 +181,7 @@ fn scomp(elem: GExpr, v: &str, src: GExpr) -> GExpr {
 
 /// a value that is *not* local, reaching the construct through several forms
 fn nonlocal_value(rng: &mut Rng, cap: &str, pre: &mut Vec<GStmt>) -> (GExpr, &'static str) {
-    match rng.below(8) {
+    match rng.below(11) {
         0 => (GExpr::scoped(GExpr::cap(cap), "zq_scoped"), "scoped_read"),
         1 => {
             pre.push(var_("zq_m", GExpr::str("ab")));
@@ -209,6 +209,14 @@ fn nonlocal_value(rng: &mut Rng, cap: &str, pre: &mut Vec<GStmt>) -> (GExpr, &'s
             pre.push(var_("zq_m", GExpr::str("a")));
             pre.push(s(StmtKind::Set(GVar::u("zq_m"), GExpr::str("b"))));
             (GExpr::var("zq_m"), "mutable_after_set_to_local")
+        }
+        8 => (
+            GExpr::call("format", vec![GExpr::str("{}{}"), GExpr::scoped(GExpr::cap(cap), "zq_scoped"), GExpr::str("local last argument")]),
+            "call_with_scoped_argument_before_local_ones",
+        ),
+        9 => {
+            pre.push(var_("zq_m", GExpr::Int(1)));
+            (GExpr::call("plus", vec![GExpr::var("zq_m"), GExpr::Int(1), GExpr::Int(2)]), "call_with_mutable_argument_first")
         }
         _ => (
             lcomp(GExpr::scoped(GExpr::var("zq_e"), "zq_scoped"), "zq_e", GExpr::List(vec![GExpr::cap(cap)])),
@@ -376,7 +384,7 @@ impl Prop for C06 {
     }
     fn cases(&self, cfg: &RunCfg) -> usize {
         match cfg.tier {
-            Tier::Quick => 120,
+            Tier::Quick => 80,
             Tier::Thorough => 6000,
         }
     }
